@@ -1,6 +1,6 @@
 (* Props/C16.v — property theorems only; proofs live in Proofs/C16*.v. *)
 From Coq Require Import List NArith ZArith Bool.
-From Cedar Require Import Lib.Bytes Lib.SymC16 Model.ClaimId Proofs.C16Str Proofs.C16Main.
+From Cedar Require Import Lib.Bytes Lib.SymC16 Model.ClaimId Proofs.C16Str Proofs.C16Dec Proofs.C16Info Proofs.C16Main Proofs.C16Mint.
 Import ListNotations.
 
 (* For ALL minting options, every secret free of '#' and ']' (every lowercase-hex
@@ -68,3 +68,86 @@ Theorem C16_public_of_parsed : forall o secret now m,
   public_of_parsed (parse_strict (m_claim m)) = m_public m.
 Proof. exact public_of_parsed_mint. Qed.
 Print Assumptions C16_public_of_parsed.
+
+(* Render / parse round trip of the policy text: for EVERY policy whose exported
+   string values contain no ';' (and whose cipher list contains no '.'; policy_safe
+   is a decidable predicate), ImportSecSessionInfo (ExportSecSessionInfo p) carries
+   the exported attributes back, with the documented rewrites: empty strings are not
+   exported (ne), the integer expiry comes back as its decimal text, a multi-cipher
+   list travels '.'-delimited and comes back ','-delimited, RemoteVersion comes back
+   as its short form. *)
+Theorem C16_policy_roundtrip : forall p info,
+  export_info p = Ok info -> policy_safe p = true ->
+  exists q, import_info info = Ok q
+    /\ get_str q A_Integrity = ne (get_str p A_Integrity)
+    /\ get_str q A_Encryption = ne (get_str p A_Encryption)
+    /\ get_str q A_ValidCommands = ne (get_str p A_ValidCommands)
+    /\ get_str q A_CryptoMethods = ne (get_str p A_CryptoMethods)
+    /\ get_str q A_SessionExpires = option_map dec_of_Z (exported_expires p)
+    /\ get_str q A_RemoteVersion = option_map short_version (ne (get_str p A_RemoteVersion)).
+Proof. exact policy_roundtrip. Qed.
+Print Assumptions C16_policy_roundtrip.
+
+(* integer versus string expiry: the decimal text ExportSecSessionInfo writes is read
+   back by strconv.ParseInt as the same int64 *)
+Theorem C16_expiry_text_roundtrip : forall z,
+  (- 9223372036854775808 <= z < 9223372036854775808)%Z -> parse_int64 (trim_space (dec_of_Z z)) = Some z.
+Proof. exact expiry_text_roundtrip. Qed.
+Print Assumptions C16_expiry_text_roundtrip.
+
+(* Under claim_safe the registered session reflects the minting options (and by
+   C16_same_session so does the importer's): toggles, cipher, command list, short
+   version; a positive lifetime becomes the absolute expiry floor((now+lifetime)/1s)
+   in the text, the policy and the cache entry; no lifetime, no expiry. *)
+Theorem C16_mint_reflects_options : forall o secret now m,
+  mint o secret now = Ok m -> claim_safe o = true ->
+  let pol := e_policy (m_entry m) in
+  get_str pol A_Encryption = Some (yes_no (mo_enc o))
+  /\ get_str pol A_Integrity = Some (yes_no (mo_integ o))
+  /\ get_str pol A_CryptoMethods = Some S_AESGCM
+  /\ get_str pol A_ValidCommands = wire_valid o
+  /\ get_str pol A_RemoteVersion = option_map short_version (wire_version o)
+  /\ ((0 < mo_lifetime_ns o)%Z -> int64_pos (expires_at now (mo_lifetime_ns o)) ->
+      get_str pol A_SessionExpires = Some (dec_of_Z (expires_at now (mo_lifetime_ns o)))
+      /\ e_expiry (m_entry m) = ExpAbs (expires_at now (mo_lifetime_ns o)))
+  /\ ((mo_lifetime_ns o <= 0)%Z ->
+      get_str pol A_SessionExpires = None /\ e_expiry (m_entry m) = ExpNone).
+Proof. exact mint_reflects. Qed.
+Print Assumptions C16_mint_reflects_options.
+
+(* claim_safe constrains only the cipher list and the version: it holds for every
+   sinful (with '#', brackets, parameters), identity, tag, toggle, command list,
+   lifetime, birthdate and sequence number, as soon as the cipher list is written
+   over [A-Za-z0-9_-], ',' and blanks and the version string contains no ';'. *)
+Theorem C16_claim_safe_realistic : forall o,
+  forallb cipher_char (mo_crypto o) = true ->
+  contains ch_semi (mo_version o) = false ->
+  claim_safe o = true.
+Proof. exact claim_safe_realistic. Qed.
+Print Assumptions C16_claim_safe_realistic.
+
+(* ---- non-vacuity: the hypotheses are satisfiable by realistic options ---------- *)
+Import String.StringSyntax.
+Local Open Scope string_scope.
+Definition ex_opts : mint_opts :=
+  {| mo_sinful := lit "<10.0.0.5:9618?addrs=10.0.0.5-9618+[2001--1]-9618&alias=n1.example.org&noUDP&sock=startd_1_a#b#c>";
+     mo_birth := 1700000000%Z; mo_seq := 7%Z; mo_peer_fqu := []; mo_peer_addr := lit "<10.0.0.9:9618>";
+     mo_enc := Some false; mo_integ := None; mo_crypto := lit "AES, 3DES, BLOWFISH";
+     mo_version := lit "$CondorVersion: 25.4.0 2025-10-31 BuildID: 847437 PackageID: 25.4.0-0.847437 GitSHA: a6507f91 RC $";
+     mo_lifetime_ns := 3600000000000%Z; mo_extra := [60021%Z]; mo_valid := [443%Z; 444%Z]; mo_tag := [] |}.
+Definition ex_secret : bytes := lit "0123456789abcdef0123456789abcdef0123456789abcdef0123456789abcdef".
+Definition ex_now : Z := 1790133636123456789%Z.
+Local Close Scope string_scope.
+
+Example C16_ex_hypotheses :
+  (exists m, mint ex_opts ex_secret ex_now = Ok m)
+  /\ claim_safe ex_opts = true
+  /\ forallb is_lower_hex ex_secret = true
+  /\ forallb cipher_char (mo_crypto ex_opts) = true
+  /\ contains ch_semi (mo_version ex_opts) = false
+  /\ int64_pos (expires_at ex_now (mo_lifetime_ns ex_opts))
+  /\ policy_safe (mint_wire ex_opts ex_now) = true.
+Proof.
+  split; [eexists; vm_compute; reflexivity|].
+  repeat split; vm_compute; reflexivity.
+Qed.
